@@ -42,13 +42,20 @@ var nextLens = []int{1}
 
 // anyPointer: root, or 1..2 tokens.
 func anyPointer(tag string) string {
+	// RFC 6901 pointers are "" or start with "/"; the library ignores whatever precedes the first "/", so a
+	// junk byte in front is part of the domain
+	lead := ""
+	if verifrt.Choose(tag+"-lead", 2) == 1 {
+		lead = verifrt.AnyStr(tag+"-lead-byte", 1)
+		verifrt.Assume(lead[0] != '/' && lead[0] != '~')
+	}
 	switch verifrt.Choose(tag+"-depth", 3) {
 	case 0:
-		return ""
+		return lead
 	case 1:
-		return "/" + anyToken(tag+"-t0", firstLens)
+		return lead + "/" + anyToken(tag+"-t0", firstLens)
 	}
-	return "/" + anyToken(tag+"-t0", firstLens) + "/" + anyToken(tag+"-t1", nextLens)
+	return lead + "/" + anyToken(tag+"-t0", firstLens) + "/" + anyToken(tag+"-t1", nextLens)
 }
 
 // anyOp: one operation; members each kind does not read are left out (they cannot influence the outcome).
@@ -91,6 +98,15 @@ func c11Check(ops []interface{}) {
 // Harness_C11_OneOp: one RFC 6902 operation of any kind with arbitrary path/from pointers.
 func Harness_C11_OneOp() {
 	c11Check([]interface{}{anyOp("op0")})
+}
+
+// Harness_C11_TwoOps: a harmless first operation followed by an arbitrary one (every operation of a list is
+// subject to validation, not just the first).
+func Harness_C11_TwoOps() {
+	firstLens = []int{7, 9}
+	nextLens = []int{1}
+	first := map[string]interface{}{"op": "add", "path": "/harmless", "value": "v"}
+	c11Check([]interface{}{first, anyOp("op1")})
 }
 
 // HarnessT_C11_OneOpWide: token lengths 0,1,2,6,7,9,10,11 (all member names, prefix siblings, escapes, indices).
